@@ -19,6 +19,18 @@ use crate::util::{catch, Caught, Rng};
 
 const TS_DEFS: &str = "CREATE TABLE t(line = '^([^;]*);([^;]*);([^;]*);([^;]*);([^;]*);([^;]*);([^;]*);([^;]*)$', line[1], line[2], line[3], line[4], line[5], line[6], line[7] => ts TIMESTAMP, line[8] => iv INTERVAL, line[1], line[2] => arr INT[], line[8] => x TEXT);\nCREATE TABLE j({.a} => a INT, {.b[0]} => b REAL, {.c.d} => c TEXT DEFAULT 'z', {.t} => t TIMESTAMP CONVERT, {.i} => i INTERVAL CONVERT);";
 
+/// text that is *almost* a literal: a literal-shaped ASCII run with a multi-byte character at a random byte offset
+/// (every offset 0..30 occurs), optionally followed by more text — for code that slices text by byte positions
+pub fn awkward_text(rng: &mut Rng) -> String {
+    let shape = *rng.pick(&["2024-03-01 12:00:00.123456 and later", "1:02:03.5 hours", "9223372036854775807000", "true or false", "-12345.678e10 units", "approximately noon or a bit later"]);
+    let cut = rng.below(31).min(shape.len());
+    let wide = *rng.pick(&["\u{e9}", "\u{20ac}", "\u{1f600}", "\u{ff15}", "\u{3000}", "\u{130}"]);
+    let mut out: String = shape[..cut].to_owned();
+    out.push_str(wide);
+    if rng.chance(2, 3) { out.push_str(&shape[cut..]); }
+    out
+}
+
 fn ts_line(rng: &mut Rng) -> String {
     let num = |rng: &mut Rng, normal: &[&str]| -> String {
         if rng.chance(1, 5) { (*rng.pick(&["4294967297", "-1", "99999999999999999999", "", "x", "2147483648", "9999999", "0"])).to_owned() } else { (*rng.pick(normal)).to_owned() }
@@ -26,10 +38,13 @@ fn ts_line(rng: &mut Rng) -> String {
     format!("{};{};{};{};{};{};{};{}",
         num(rng, &["2020", "1999", "2018", "262142", "1"]), num(rng, &["1", "2", "11", "12", "jan", "Feb", "sept"]), num(rng, &["1", "4", "28", "29", "31"]),
         num(rng, &["0", "12", "23"]), num(rng, &["0", "30", "59"]), num(rng, &["0", "30", "59", "60"]), num(rng, &["0", "5", "999", "999999"]),
-        rng.pick(&["1:2:3", "9999999999999999:0:0", "0:9999999999999999:0", "-5:0:0", "x", "2562047788015:0:0", "2018-11-04 00:30:00"]))
+        if rng.chance(1, 4) { awkward_text(rng) } else { (*rng.pick(&["1:2:3", "9999999999999999:0:0", "0:9999999999999999:0", "-5:0:0", "x", "2562047788015:0:0", "2018-11-04 00:30:00"])).to_owned() })
 }
 
 fn json_line(rng: &mut Rng) -> String {
+    if rng.chance(1, 5) {
+        return format!("{{\"a\": 1, \"t\": \"{}\", \"i\": \"{}\", \"c\": {{\"d\": \"{}\"}}}}", awkward_text(rng), awkward_text(rng), awkward_text(rng));
+    }
     (*rng.pick(&[
         "{\"a\": 1, \"b\": [1.5], \"c\": {\"d\": \"x\"}, \"t\": \"2018-11-04 00:30:00\", \"i\": \"1:2:3\"}",
         "{\"a\": 9223372036854775808, \"b\": [1e308], \"t\": \"2018-02-17 23:30:00\", \"i\": \"99999999999999:0:0\"}",
